@@ -897,6 +897,10 @@ class Tr:
                 return b, t[6:-1], "bool"
             return b, f"(negb {t})", "bool"
         if isinstance(n, ast.IfExp):
+            st = self.static_test(n.test, env)
+            if st is not None:
+                # view: the facts known here decide the test; the other arm can only be reached by values outside the view
+                return self.E(n.body if st else n.orelse, env, want)
             cb, c = self.cond(n.test, env)
             ab, a, aty = self.E(n.body, env)
             eb, e, ety = self.E(n.orelse, env)
@@ -1392,6 +1396,8 @@ class Tr:
                 return test.left.id, True
             if isinstance(test.ops[0], ast.Is):
                 return test.left.id, False
+        if isinstance(test, ast.UnaryOp) and isinstance(test.op, ast.Not) and isinstance(test.operand, ast.Name):
+            return test.operand.id, False
         return None, None
 
     def B(self, stmts, env, k):
@@ -1732,13 +1738,15 @@ class Tr:
                 inner = env[var][1]
                 if inner is None:
                     bad(s, "test of a variable that is None before its type is known")
-                if isinstance(s.test, ast.Name) and not (inner == "header" or (isinstance(inner, tuple)
+                if (isinstance(s.test, ast.Name) or isinstance(s.test, ast.UnaryOp)) \
+                        and not (inner == "header" or (isinstance(inner, tuple)
                                                                               and inner[0] == "tuple" and inner[1])):
                     bad(s, "truthiness of an optional whose value can be false")
                 some_body, none_body = (s.body, s.orelse) if positive else (s.orelse, s.body)
                 some_k, none_k = (then_k, else_k) if positive else (else_k, then_k)
                 reads = any(isinstance(x, ast.Name) and x.id == var for st in some_body for x in ast.walk(st))
-                if not positive and not s.orelse and not ft_then and not self.loop \
+                if not positive and not s.orelse and not ft_then \
+                        and (not self.loop or all(var not in lv for lv in self.loopvars)) \
                         and any(isinstance(x, ast.Name) and x.id == var for st in rest for x in ast.walk(st)):
                     # `if x is None: <leaves>`: from here on the name denotes the value
                     env_some = dict(env)
@@ -2270,6 +2278,79 @@ def inline_attribute_names(fd, cls):
             break
 
 
+class Desugar(ast.NodeTransformer):
+    """NORMALISATIONS on the syntax tree, each an exact equivalence of Python (applied to every module before anything
+    else reads it):
+      * `x.decode()` / `x.encode()` are `x.decode("utf-8")` / `x.encode("utf-8")` (the defaults of both methods);
+      * `a, b = divmod(x, K)` with x a name and K a non-zero integer literal is `a, b = x // K, x % K`;
+      * an assignment expression that is the FIRST thing a test evaluates moves in front of the test:
+        `if (x := e) ...:` is `x = e` then `if x ...:`; `while (x := e) ...: body` is
+        `while True: x = e; if not (x ...): break; body` (a loop with an `else` clause is left alone);
+        `if x := e:` likewise."""
+
+    @staticmethod
+    def _leading_walrus(test):
+        """(named expression, rebuilt test) when the first thing `test` evaluates is `(x := e)`"""
+        if isinstance(test, ast.NamedExpr) and isinstance(test.target, ast.Name):
+            return test, ast.Name(id=test.target.id, ctx=ast.Load())
+        if isinstance(test, ast.Compare) and isinstance(test.left, ast.NamedExpr) and isinstance(test.left.target, ast.Name):
+            w = test.left
+            return w, ast.Compare(left=ast.Name(id=w.target.id, ctx=ast.Load()), ops=test.ops, comparators=test.comparators)
+        if isinstance(test, ast.UnaryOp) and isinstance(test.op, ast.Not):
+            r = Desugar._leading_walrus(test.operand)
+            if r:
+                return r[0], ast.UnaryOp(op=ast.Not(), operand=r[1])
+        if isinstance(test, ast.BoolOp) and test.values:
+            r = Desugar._leading_walrus(test.values[0])
+            if r:
+                return r[0], ast.BoolOp(op=test.op, values=[r[1]] + test.values[1:])
+        return None
+
+    def visit_Call(self, n):
+        self.generic_visit(n)
+        if isinstance(n.func, ast.Attribute) and n.func.attr in ("decode", "encode") and not n.args and not n.keywords:
+            n.args = [ast.Constant(value="utf-8")]
+        return n
+
+    def visit_Assign(self, n):
+        self.generic_visit(n)
+        v = n.value
+        if (len(n.targets) == 1 and isinstance(n.targets[0], ast.Tuple) and len(n.targets[0].elts) == 2
+                and isinstance(v, ast.Call) and isinstance(v.func, ast.Name) and v.func.id == "divmod"
+                and len(v.args) == 2 and not v.keywords and isinstance(v.args[0], ast.Name)
+                and isinstance(v.args[1], ast.Constant) and type(v.args[1].value) is int and v.args[1].value != 0):
+            x, k = v.args
+            n.value = ast.Tuple(elts=[ast.BinOp(left=ast.Name(id=x.id, ctx=ast.Load()), op=ast.FloorDiv(), right=k),
+                                      ast.BinOp(left=ast.Name(id=x.id, ctx=ast.Load()), op=ast.Mod(),
+                                                right=ast.Constant(value=k.value))], ctx=ast.Load())
+        return n
+
+    def visit_If(self, n):
+        self.generic_visit(n)
+        r = self._leading_walrus(n.test)
+        if r is None:
+            return n
+        w, test = r
+        n.test = test
+        return [ast.Assign(targets=[ast.Name(id=w.target.id, ctx=ast.Store())], value=w.value, lineno=n.lineno), n]
+
+    def visit_While(self, n):
+        self.generic_visit(n)
+        r = self._leading_walrus(n.test)
+        if r is None or n.orelse:
+            return n
+        w, test = r
+        head = [ast.Assign(targets=[ast.Name(id=w.target.id, ctx=ast.Store())], value=w.value, lineno=n.lineno),
+                ast.If(test=ast.UnaryOp(op=ast.Not(), operand=test), body=[ast.Break()], orelse=[], lineno=n.lineno)]
+        return ast.While(test=ast.Constant(value=True), body=head + n.body, orelse=[], lineno=n.lineno)
+
+
+def desugar(tree):
+    tree = Desugar().visit(tree)
+    ast.fix_missing_locations(tree)
+    return tree
+
+
 def rename_reserved(fd):
     """local names that are Coq keywords get a trailing underscore"""
     names = {x.id for x in ast.walk(fd) if isinstance(x, ast.Name)} | {a.arg for a in fd.args.args}
@@ -2591,7 +2672,7 @@ def main():
     sys.path.insert(0, os.path.dirname(os.path.abspath(__file__)))
     os.makedirs(out, exist_ok=True)
     status = {}
-    trees = {m: ast.parse(open(os.path.join(src, m + ".py")).read())
+    trees = {m: desugar(ast.parse(open(os.path.join(src, m + ".py")).read()))
              for m in ("hpack", "table", "huffman", "huffman_constants", "huffman_table")}
 
     # ---------------- GExn.v: the class headers of exceptions.py as data
@@ -2716,6 +2797,14 @@ def main():
                                            "_encode_indexed_literal", "_encode_table_size_change"})}
     CONST_BINDINGS.clear()
     CONST_BINDINGS.update(constant_bindings(trees))
+    # (aliases of the objects held by self are replaced before anything classifies the methods: whether a method
+    # mutates self must not depend on whether it names the table `self.header_table` or through a local)
+    for t_ in trees.values():
+        for c_ in t_.body:
+            if isinstance(c_, ast.ClassDef) and c_.name in CLASSES:
+                for m_ in c_.body:
+                    if isinstance(m_, ast.FunctionDef):
+                        inline_attribute_names(m_, c_.name)
     classes = {c: ClsInfo() for c in CLASSES}
     mfuns = {"hpack": {}, "table": funs, "huffman": {}, "huffman_table": {}}
     tmeth = {}
